@@ -250,7 +250,10 @@ def update_dictionary(current, update):
         if key == "_add":
             for added_value in value:
                 added_key = added_value["key"]
-                added_state = added_value["state"]
+                # copy, so that later updates of this key (which call
+                # ``.update()`` on the stored state) cannot write into
+                # the update object that was handed in
+                added_state = copy.copy(added_value["state"])
                 result[added_key] = added_state
         elif key == "_delete":
             for k in value:
